@@ -466,38 +466,46 @@ def vm_harnesses() -> List[Harness]:
 
 
 def lexer_harnesses() -> List[Harness]:
-    """C16, BOUNDED: LexerHelper::get_line over every newline list of at most 4 strictly increasing positions
-    (gaps < 1000) and every position inside the input.  The body iterates with iter().enumerate(), which Verus
-    rejects; unwind(7) with unwinding assertions.  Reported as bounded, never counted as proved."""
-    b = """        let in_n: usize = kani::any();
-        kani::assume(in_n <= 4);
-        let in_g0: usize = kani::any(); let in_g1: usize = kani::any(); let in_g2: usize = kani::any(); let in_g3: usize = kani::any();
-        kani::assume(in_g0 < 1000 && in_g1 < 1000 && in_g2 < 1000 && in_g3 < 1000);
-        let p0 = in_g0; let p1 = p0 + 1 + in_g1; let p2 = p1 + 1 + in_g2; let p3 = p2 + 1 + in_g3;
-        let mut v: Vec<usize> = vec![p0, p1, p2, p3];
+    """C16, BOUNDED: LexerHelper::get_line over every newline list of at most N strictly increasing positions
+    (gaps < 1000; N = 4 in the quick tier, 7 in the thorough tier) and every position inside the input.  The body
+    iterates with iter().enumerate(), which Verus rejects; unwind(N+3) with unwinding assertions.  Reported as
+    bounded, never counted as proved."""
+    import os
+    N = 7 if os.environ.get("VERIF_TIER_EFFECTIVE") == "thorough" else 4
+    gs = " ".join(f"let in_g{k}: usize = kani::any();" for k in range(N))
+    ass = " && ".join(f"in_g{k} < 1000" for k in range(N))
+    ps = "let p0 = in_g0; " + " ".join(f"let p{k} = p{k-1} + 1 + in_g{k};" for k in range(1, N))
+    arr = ", ".join(f"p{k}" for k in range(N))
+    nxt = " ".join(f"{k + 1} => p{k} + 1," for k in range(N - 1))
+    b = f"""        let in_n: usize = kani::any();
+        kani::assume(in_n <= {N});
+        {gs}
+        kani::assume({ass});
+        {ps}
+        let mut v: Vec<usize> = vec![{arr}];
         v.truncate(in_n);
-        let next: usize = match in_n { 0 => 0, 1 => p0 + 1, 2 => p1 + 1, 3 => p2 + 1, _ => p3 + 1 };
+        let next: usize = match in_n {{ 0 => 0, {nxt} _ => p{N - 1} + 1 }};
         let in_tail: usize = kani::any();
         kani::assume(in_tail < 1000);
         let len = next + in_tail;
-        let nl = [p0, p1, p2, p3];
-        let lh = LexerHelper { temp_line: 0, newline_list: v, input_len: len };
+        let nl = [{arr}];
+        let lh = LexerHelper {{ temp_line: 0, newline_list: v, input_len: len }};
         let in_pos: usize = kani::any();
         kani::assume(in_pos <= len);
         let (line, start, end) = lh.get_line(in_pos);
 """
     b += A("lexer.get_line.contains_position", "start <= in_pos && in_pos <= end && end <= len")
-    b += """        let mut before = 0usize; let mut inside = false; let mut start_ok = start == 0; let mut end_ok = end == len;
+    b += f"""        let mut before = 0usize; let mut inside = false; let mut start_ok = start == 0; let mut end_ok = end == len;
         let mut j = 0;
-        while j < 4 {
-            if j < in_n {
-                if nl[j] < start { before += 1; }
-                if start <= nl[j] && nl[j] < end { inside = true; }
-                if nl[j] + 1 == start { start_ok = true; }
-                if nl[j] == end { end_ok = true; }
-            }
+        while j < {N} {{
+            if j < in_n {{
+                if nl[j] < start {{ before += 1; }}
+                if start <= nl[j] && nl[j] < end {{ inside = true; }}
+                if nl[j] + 1 == start {{ start_ok = true; }}
+                if nl[j] == end {{ end_ok = true; }}
+            }}
             j += 1;
-        }
+        }}
 """
     b += A("lexer.get_line.no_newline_inside_the_line", "!inside")
     b += A("lexer.get_line.starts_after_a_newline_or_at_0", "start_ok")
@@ -506,8 +514,8 @@ def lexer_harnesses() -> List[Harness]:
     h = Harness("b_lexer_get_line", ["C16", "C09"], b,
                 ["lexer.get_line.contains_position", "lexer.get_line.no_newline_inside_the_line", "lexer.get_line.starts_after_a_newline_or_at_0",
                  "lexer.get_line.ends_at_a_newline_or_end_of_input", "lexer.get_line.line_number_counts_newlines_before"],
-                ["LexerHelper::get_line"], unwind=7)
-    h.bounded = "newline list of at most 4 positions, gaps < 1000, unwind(7) with unwinding assertions"
+                ["LexerHelper::get_line"], unwind=N + 3)
+    h.bounded = f"newline list of at most {N} positions, gaps < 1000, unwind({N + 3}) with unwinding assertions"
     # LexerHelper::new on EVERY string of at most 2 characters over an alphabet with 1-, 2- and 3-byte characters
     # (31 literals, enumerated: symbolic strings make CBMC's model of String/char decoding too expensive)
     import itertools
